@@ -94,13 +94,18 @@ def check(ctx, cases):
 
 def run(ctx):
     thorough = ctx.tier == "thorough"
-    invs = ["FractionsAlwaysRecognised", "BareOnlyWithContext", "CleanRecognisesAll"]
+    invs = ["FractionsAlwaysRecognised", "BareOnlyWithContext", "CleanRecognisesAll", "PipelineCanonical", "PipelineSound"]
+    props = ["FixedPoint"]
     n = 3
-    ctx.tlc("AliquotLex", {"MaxLen": n, "Fault": "none", "EmitCases": False}, invariants=invs)
-    ctx.tlc("AliquotLex", {"MaxLen": 1, "Fault": "none", "EmitCases": False}, invariants=invs, coverage=True, count=False)
-    ctx.require_actions(["Choose"])
+    ctx.tlc("AliquotLex", {"MaxLen": n, "Fault": "none", "EmitCases": False}, invariants=invs, properties=props)
+    ctx.tlc("AliquotLex", {"MaxLen": 2, "Fault": "none", "EmitCases": False}, invariants=invs, properties=props,
+            coverage=True, count=False)
+    ctx.require_actions(["Choose", "Scrub", "CleanQQ", "HalfPlusQ", "RemoveInterveners", "Again"])
     ctx.tlc("AliquotLex", {"MaxLen": 2, "Fault": "bare_always", "EmitCases": False}, invariants=invs,
             expect_violation="bare_always", count=False)
+    # the order of the passes matters: clean_qq scrubbers after the intervener removal break the canonical form
+    ctx.tlc("AliquotLex", {"MaxLen": 2, "Fault": "clean_last", "EmitCases": False}, invariants=invs, properties=props,
+            expect_violation="clean_last", count=False)
     res = ctx.tlc("AliquotLex", {"MaxLen": n, "Fault": "none", "EmitCases": True}, invariants=["EmitCase"], workers=1,
                   count=False, timeout=1800)
     cases = []
